@@ -198,7 +198,7 @@ def gen_plan(seed, cfg):
              "prewarm": False}]
         va = rng.choice([0, 1, 2])
         plan["threads"] = [[[0, va]], [[1, va]]]
-        plan["park_sweep"] = {"thread": 0, "max": 40, "kind": "shared"}
+        plan["park_sweep"] = {"thread": 0, "max": 16, "kind": "shared"}
     elif r_sweep < (0.03 if tier == "quick" else 0.05):
         # enumeration run: two threads, one shared method (compiled or not), every shared write of
         # the victim thread tried as the parking position
@@ -416,7 +416,7 @@ def run_plan(plan, cfg=None):
     if shared and covered:
         # depth 2: the victim parks at its k1-th access, the partner runs up to ITS k2-th access and
         # parks, the victim finishes, then the partner - every (k1, k2), both threads as the victim
-        budget = 60
+        budget = 30
         for victim in (sw["thread"], 1 - sw["thread"]):
             sw2 = dict(sw, thread=victim)
             for k1 in range(1, 13):
